@@ -535,7 +535,7 @@ func Prop() *core.Prop {
 		},
 		Cases: func(tier string) int {
 			if tier == "thorough" {
-				return 600
+				return 400
 			}
 			return 48
 		},
